@@ -73,3 +73,77 @@ def K1(vc):
     vc.canary('canary.never_update', res.reason is not R.UPDATE)
     vc.canary('canary.initial_kept_on_create', Eq(res.initial, initial))
     return ('return', res.reason, res.initial)
+
+
+# ----------------------------------------------------------------------------------------------- K2
+def wf_body(vc, body):
+    """Precondition on watched bodies: a JSON object whose `metadata`, if present, is an object,
+    and whose `metadata.finalizers`, if present, is a list (Kubernetes guarantees more)."""
+    import z3
+    from pyvc.values import J
+    t = body.term
+    md = z3.Select(J.fields(t), z3.StringVal('metadata'))
+    fin = z3.Select(J.fields(md), z3.StringVal('finalizers'))
+    vc.assume(J.is_JObj(t), 'body is an object')
+    vc.assume(z3.Or(J.is_JAbsent(md), J.is_JObj(md)), 'metadata is an object if present')
+    vc.assume(z3.Implies(J.is_JObj(md), z3.Or(J.is_JAbsent(fin), J.is_JList(fin))), 'finalizers is a list if present')
+
+
+def spec_ongoing(body):
+    """metadata.deletionTimestamp is present and not null."""
+    import z3
+    from pyvc.values import J, SBool
+    md = z3.Select(J.fields(body.term), z3.StringVal('metadata'))
+    ts = z3.Select(J.fields(md), z3.StringVal('deletionTimestamp'))
+    return SBool(z3.And(J.is_JObj(md), z3.Not(J.is_JAbsent(ts)), z3.Not(J.is_JNull(ts))))
+
+
+def spec_blocked(body, finalizer):
+    import z3
+    from pyvc.values import J, SBool, to_json_term
+    md = z3.Select(J.fields(body.term), z3.StringVal('metadata'))
+    fin = z3.Select(J.fields(md), z3.StringVal('finalizers'))
+    return SBool(z3.And(J.is_JObj(md), J.is_JList(fin), z3.Contains(J.items(fin), z3.Unit(to_json_term(finalizer)))))
+
+
+@harness('K2', targets=['kopf._cogs.structs.finalizers.is_deletion_ongoing', 'kopf._cogs.structs.finalizers.is_deletion_blocked'],
+         props=['C05', 'C06'], clauses=['ongoing', 'blocked', 'pure'], canaries=['canary.always_ongoing'],
+         assumes=['bodies.Body is a transparent read-only mapping view of the raw JSON object (dicts.MappingView): body.get(k, d) == raw.get(k, d)'])
+def K2(vc):
+    """The two finalizer predicates are exactly the JSON facts the property names: deletion mark =
+    non-null metadata.deletionTimestamp; held = the finalizer string is an element of metadata.finalizers."""
+    body = vc.json('body')
+    if vc.concrete:
+        body = _strip_absent(body)
+    else:
+        wf_body(vc, body)
+    finalizer = vc.str('finalizer')
+    before = body.term if not vc.concrete else repr(body)
+    which = vc.nondet(2, 'function')
+    if which == 0:
+        ld = vc.load('kopf._cogs.structs.finalizers', 'is_deletion_ongoing')
+        r = ld.fn(body)
+        if not vc.concrete:
+            vc.ensure('ongoing', Iff(r, spec_ongoing(body)))
+            vc.canary('canary.always_ongoing', r)
+    else:
+        ld = vc.load('kopf._cogs.structs.finalizers', 'is_deletion_blocked')
+        r = ld.fn(body, finalizer)
+        if not vc.concrete:
+            vc.ensure('blocked', Iff(r, spec_blocked(body, finalizer)))
+    if not vc.concrete:
+        import z3
+        vc.ensure('pure', SBool(body.term == before))
+    else:
+        vc.ensure('pure', repr(body) == before)
+    return ('return', which, r)
+
+
+def _strip_absent(x):
+    """Concrete JSON from a model: drop <absent> markers and the 'every other key' default."""
+    from pyvc.values import Absent
+    if isinstance(x, dict):
+        return {k: _strip_absent(v) for k, v in x.items() if not isinstance(v, Absent) and k != '<every-other-key>'}
+    if isinstance(x, list):
+        return [_strip_absent(v) for v in x]
+    return x
